@@ -424,8 +424,22 @@ pub fn units(prop: &str, tier: Tier) -> Option<Vec<Unit>> {
             .map(|u| Unit::Custom { name: u.name.clone(), run: Box::new(move |cx| eng_text::run_unit(&u, cx)) })
             .collect(),
         "C15" => {
-            let alarm = ACC | VAL | CXO;
-            vec![class("kctx", &en::k_ctx(), pick(4, 4)).len(pick(4, 5)).cfg(CfgId::RichCx).probes(CTX).alarm(alarm).unit()]
+            let alarm = ACC | VAL | CXO | PSP | PEX | CHK | PAN;
+            vec![
+                class("kctx", &en::k_ctx(), pick(4, 4)).len(pick(4, 5)).cfg(CfgId::RichCx).probes(CTX).alarm(alarm).unit(),
+                e1("kctx-recursion", format!("guarded recursive bodies (<= {} nodes) over context providers and consumers (with_ctx, map_ctx, then_with_ctx, ignore_with_ctx, just from ctx, repeated at_most from ctx)", pick(5, 6)), en::k_ctx_rec(pick(5, 6)))
+                    .len(pick(4, 5))
+                    .cfg(CfgId::RichCx)
+                    .probes(CTX)
+                    .alarm(alarm)
+                    .unit(),
+                e1("ctx-families", "hand-built context-sensitive families: length-prefixed (nested, repeated, in choices), range from context, try_configure errors, delimiter-echo (nested providers), recursion under a context, indentation-like levels".into(), en::ctx_families())
+                    .len(pick(6, 8))
+                    .cfg(CfgId::RichCx)
+                    .probes(CTX)
+                    .alarm(alarm)
+                    .unit(),
+            ]
         }
         "C16" => ["nested-wide", "nested-deep"].into_iter().map(|n| Unit::Custom { name: n.to_string(), run: Box::new(move |cx| eng_nested::run(n, tier, cx)) }).collect(),
         "C17" => {
@@ -458,6 +472,9 @@ pub fn units(prop: &str, tier: Tier) -> Option<Vec<Unit>> {
             for (n, c) in [("rich", CfgId::Rich), ("simple", CfgId::Simple), ("cheap", CfgId::Cheap), ("empty", CfgId::Empty)] {
                 v.push(class(&format!("kext-{n}"), &en::k_ext(), pick(3, 4)).cfg(c).probes(NOPROBE).alarm(alarm).unit());
                 v.push(class(&format!("k01-{n}"), &en::k01(), pick(3, 3)).cfg(c).probes(NOPROBE).alarm(alarm).unit());
+                if n == "rich" {
+                    v.push(Unit::Custom { name: "text-totality".into(), run: Box::new(move |cx| eng_text::run_totality("text-totality", if tier == Tier::Quick { 4 } else { 5 }, cx)) });
+                }
                 v.push(class(&format!("ktot-{n}"), &en::k_tot(), pick(5, 6)).alpha(&['a', 'b'], pick(3, 4)).cfg(c).probes(NOPROBE).alarm(alarm).unit());
             }
             v
